@@ -143,8 +143,11 @@ def decode_chunk_into(chunk, buf, block_size):
         if offset + 8 * gx * gy * gz > len(buf):
             raise InvalidFormatError("compressed_segmentation channel offset "
                                      "is too large (truncated file?)")
+        # offsets inside a channel are relative to its start; the format does
+        # not require the channels to be stored in order, so do not cut the
+        # channel data at the next channel's offset
         _decode_channel_into(
-            chunk, channel, buf[offset:next_offset], block_size
+            chunk, channel, buf[offset:], block_size
         )
 
     return chunk
